@@ -5,9 +5,11 @@ import (
 	"encoding/json"
 	"errors"
 	"fmt"
+	"math"
 	"os"
 	"path/filepath"
 	"runtime"
+	"runtime/debug"
 	"sort"
 	"strings"
 	"testing"
@@ -24,7 +26,13 @@ import (
 	"verifharness/mk"
 )
 
-func TestMain(m *testing.M) { hx.Main(m) }
+func TestMain(m *testing.M) {
+	// recursion that grows with the nesting of the input overflows the default 1 GB stack only on inputs of several
+	// megabytes; with a 64 MB stack the same defect shows on inputs of a few hundred kilobytes. Bounded recursion (the
+	// minifiers limit nesting to a few hundred levels) stays far below it.
+	debug.SetMaxStack(64 << 20)
+	hx.Main(m)
+}
 
 type Case struct {
 	Target   string            `json:"target"` // js html css svg xml json | Number Decimal Mediatype DataURI PathData UpdateErrorPosition
@@ -225,7 +233,7 @@ func genCase(t *rapid.T) Case {
 	if rapid.IntRange(0, 4).Draw(t, "helper") == 0 {
 		c.Target = rapid.SampledFrom(helperTargets).Draw(t, "helpertarget")
 		setInput(&c, helperInput(t, c.Target))
-		c.Prec = rapid.SampledFrom([]int{0, 1, 2, 5, 17, -1, 1000000000, -1000000000}).Draw(t, "prec")
+		c.Prec = rapid.SampledFrom([]int{0, 1, 2, 5, 17, -1, 1000000000, -1000000000, math.MaxInt, math.MaxInt - 1, math.MinInt, math.MaxInt32, math.MinInt32}).Draw(t, "prec")
 		if c.Target == "UpdateErrorPosition" {
 			c.Prec = rapid.IntRange(-3, 40).Draw(t, "offset")
 		}
@@ -282,7 +290,7 @@ func TestCampaignArbitrary(t *testing.T) {
 var families = map[string][]string{
 	"js":   {"paren", "bracket", "brace-block", "object", "arrow", "unary", "ternary", "binary-left", "template-nest", "long-string", "long-regex", "stmts", "long-ident", "comment", "call-chain", "assign-chain", "if-else-chain", "function-nest", "class-nest", "new-chain", "comma"},
 	"html": {"div-open", "div-nested-closed", "attrs", "long-attr", "long-text", "comment", "svg-nest", "p-open", "table-nest", "entity-text", "entity-attr", "script-long", "b-unclosed", "lt-run"},
-	"css":  {"rules", "media-nest", "paren-value", "long-ident", "selector-list", "comment", "brace-open", "long-url", "values", "important"},
+	"css":  {"rules", "media-nest", "paren-value", "long-ident", "selector-list", "comment", "brace-open", "long-url", "values", "important", "function-nest", "function-nest-closed", "calc-nest", "selector-fn-nest", "bracket-value", "var-nest", "at-fn-nest"},
 	"svg":  {"g-nest", "path-long", "attrs", "text-long", "g-open", "entity-text", "style-long"},
 	"xml":  {"open-nest", "closed-nest", "attrs", "cdata-long", "text-long", "comment", "entity-text", "entity-attr", "cdata-many", "pi-many"},
 	"json": {"array-nest", "object-nest", "long-string", "numbers", "array-open"},
@@ -387,6 +395,20 @@ func family(name string, n int) string {
 		return rep("@media x{", n/10) + "a{b:c}" + rep("}", n/10)
 	case "css/paren-value":
 		return "a{b:" + rep("(", n/2) + rep(")", n/2) + "}"
+	case "css/function-nest":
+		return "a{b:" + rep("c(", n/2) + "}"
+	case "css/function-nest-closed":
+		return "a{b:" + rep("c(", n/3) + "1" + rep(")", n/3) + "}"
+	case "css/calc-nest":
+		return "a{width:" + rep("calc(1px + ", n/12) + "1px" + rep(")", n/12) + "}"
+	case "css/selector-fn-nest":
+		return "a" + rep(":not(", n/6) + "b" + rep(")", n/6) + "{c:d}"
+	case "css/bracket-value":
+		return "a{b:" + rep("[", n/2) + rep("]", n/2) + "}"
+	case "css/var-nest":
+		return "a{color:" + rep("var(--x,", n/9) + "red" + rep(")", n/9) + "}"
+	case "css/at-fn-nest":
+		return "@supports " + rep("(not ", n/6) + "(a:b)" + rep(")", n/6) + "{a{b:c}}"
 	case "css/long-ident":
 		return rep("a", n) + "{b:c}"
 	case "css/selector-list":
@@ -579,6 +601,7 @@ func clearInflight() {
 }
 
 func matchKnown(c Case, err error) string { return "" }
+
 // matchKnownScaling: the quadratic tail copy of parse.replaceEntities (dependency) is
 // triggered exactly by long runs of replaceable character references.
 func matchKnownScaling(f string) string {
